@@ -158,6 +158,171 @@ def rule_loops_finite(ctx, rid="R3.4"):
     return r
 
 
+_PROG = [None]
+
+
+def _template_constant(f, e, depth=0):
+    """Is the string expression e free of data: a literal, a concatenation / conditional of such, or a local only ever bound
+    to such?  (Only then is it safe as the *template* of % or str.format.)"""
+    if depth > 4:
+        return False
+    if isinstance(e, ast.Constant):
+        return isinstance(e.value, str)
+    if isinstance(e, ast.BinOp) and isinstance(e.op, ast.Add):
+        return _template_constant(f, e.left, depth + 1) and _template_constant(f, e.right, depth + 1)
+    if isinstance(e, ast.IfExp):
+        return _template_constant(f, e.body, depth + 1) and _template_constant(f, e.orelse, depth + 1)
+    if isinstance(e, ast.Call) and isinstance(e.func, ast.Attribute) and e.func.attr in ("rstrip", "strip", "lstrip") and not e.args:
+        return _template_constant(f, e.func.value, depth + 1)
+    if isinstance(e, ast.Call) and norm(e.func).split(".")[-1] == "dedent" and len(e.args) == 1:
+        return _template_constant(f, e.args[0], depth + 1)
+    if isinstance(e, ast.Name) and e.id in f.all_params and not any(
+            isinstance(n, (ast.Assign, ast.AugAssign)) and any(isinstance(t, ast.Name) and t.id == e.id for t in (n.targets if isinstance(n, ast.Assign) else [n.target]))
+            for n in walk_body(f)):
+        # a template handed in as a parameter: every call site in the package must pass a literal template
+        from ..calls import calls_of as _calls_of
+        prog = _PROG[0]
+        if prog is None:
+            return False
+        calls = _calls_of(prog)
+        idx = f.params.index(e.id) if e.id in f.params else None
+        sites = []
+        for g in prog.funcs.values():
+            for n in walk_body(g):
+                if isinstance(n, ast.Call) and any(t.kind == "func" and t.func is f for t in calls.callee(g, n)):
+                    arg = None
+                    if idx is not None and idx < len(n.args):
+                        arg = n.args[idx]
+                    for k in n.keywords:
+                        if k.arg == e.id:
+                            arg = k.value
+                    sites.append((g, arg))
+        return bool(sites) and all(a is not None and _template_constant(g, a, depth + 1) for g, a in sites)
+    if isinstance(e, ast.Name):
+        # the definitions that reach this use (flow-sensitive: the same name may be a loop variable elsewhere in the function)
+        from ..cfg import cfg_of, reaching_defs, node_exprs, walk_expr
+        cfg = cfg_of(f)
+        rd = reaching_defs(cfg)
+        here = None
+        for n in cfg.live:
+            if any(sub is e for x in node_exprs(n) for sub in walk_expr(x)):
+                here = n
+                break
+        if here is None:
+            return False
+        defs = [cfg.nodes[d] for d in rd[here.id].get(e.id, ())]
+        if not defs:
+            return False
+        for dn in defs:
+            if dn is cfg.entry or dn.kind != "stmt":
+                return False
+            a = dn.ast
+            if isinstance(a, ast.Assign) and len(a.targets) == 1 and isinstance(a.targets[0], ast.Name):
+                if not _template_constant(f, a.value, depth + 1):
+                    return False
+            elif isinstance(a, ast.AugAssign) and isinstance(a.op, ast.Add):
+                if not _template_constant(f, a.value, depth + 1):
+                    return False
+                # the value before the += must be constant too: look at what reached the augmented assignment
+                prev = [cfg.nodes[d] for d in rd[dn.id].get(e.id, ())]
+                for pn in prev:
+                    pa = pn.ast
+                    if not (pn.kind == "stmt" and isinstance(pa, ast.Assign) and _template_constant(f, pa.value, depth + 1)):
+                        return False
+            else:
+                return False
+        return True
+    if isinstance(e, ast.Attribute) and isinstance(e.value, ast.Name) and e.attr.isupper() or (isinstance(e, ast.Attribute) and e.attr.startswith("_") and e.attr[1:].isupper()):
+        return True        # class-level message constants (self._ERROR_MSG)
+    return False
+
+
+def rule_no_data_templates(ctx, rid="R3.6"):
+    """`template % args` and `template.format(...)`: a template that contains instance or schema data (a member name, a repr)
+    misreads every `%` / `{` in that data as a conversion and raises ValueError/TypeError/KeyError."""
+    prog = ctx.prog
+    _PROG[0] = prog
+    calls = calls_of(prog)
+    reach = set(calls.reachable(calls.validation_roots()))
+    for q in ("_utils.types_msg", "_utils.extras_msg", "_utils.format_as_index"):
+        if q in prog.funcs:
+            reach.add(prog.funcs[q])
+    r = ctx.rule(rid, "no message is built with data in the template position of % / str.format (a '%' or '{' in a key or value would raise)", floor=30)
+    for f in sorted(reach, key=lambda x: x.qual):
+        if f.mod.name in ("cli", "_reflect"):
+            continue
+        for n in walk_body(f):
+            tmpl = None
+            if isinstance(n, ast.BinOp) and isinstance(n.op, ast.Mod):
+                stringy = isinstance(n.right, ast.Tuple) or isinstance(n.left, (ast.Constant, ast.JoinedStr)) and isinstance(getattr(n.left, "value", ""), str) \
+                    or (isinstance(n.left, ast.Name) and any(isinstance(x, ast.Assign) and any(isinstance(t, ast.Name) and t.id == n.left.id for t in x.targets)
+                                                             and isinstance(x.value, (ast.Constant, ast.BinOp, ast.Call)) and
+                                                             (not isinstance(x.value, ast.Constant) or isinstance(x.value.value, str)) for x in walk_body(f))
+                        and isinstance(n.right, (ast.Tuple, ast.Name, ast.Call, ast.Attribute, ast.Subscript)) and _looks_like_text(f, n.left))
+                if stringy:
+                    tmpl = n.left
+            elif isinstance(n, ast.Call) and isinstance(n.func, ast.Attribute) and n.func.attr == "format" and (n.args or n.keywords):
+                if not (isinstance(n.func.value, ast.Name) and n.func.value.id in f.all_params and f.mod.name == "cli"):
+                    tmpl = n.func.value
+            if tmpl is None:
+                continue
+            if _template_constant(f, tmpl):
+                r.ok(site(f, n), "template is a literal: %s" % norm(tmpl)[:40])
+            else:
+                r.fail("%s|data-in-template|%s" % (f.qual, norm(tmpl)[:40]), site(f, n),
+                       "`%s` is used as a format template but is assembled from data: a '%%' (or '{') in a member name or value raises "
+                       "ValueError/TypeError instead of producing the message" % norm(tmpl)[:50])
+    return r
+
+
+def _looks_like_text(f, name_node):
+    """a local that holds text (bound to a string literal / a join / a % or + of text), as opposed to a number used with %"""
+    for x in walk_body(f):
+        if isinstance(x, (ast.Assign, ast.AugAssign)):
+            tgts = x.targets if isinstance(x, ast.Assign) else [x.target]
+            if any(isinstance(t, ast.Name) and t.id == name_node.id for t in tgts):
+                v = x.value
+                if isinstance(v, ast.Constant) and isinstance(v.value, str):
+                    return True
+                if isinstance(v, ast.Call) and isinstance(v.func, ast.Attribute) and v.func.attr in ("join", "format"):
+                    return True
+                if isinstance(v, ast.BinOp) and isinstance(v.op, (ast.Mod, ast.Add)) and any(isinstance(s, ast.Constant) and isinstance(s.value, str) for s in ast.walk(v)):
+                    return True
+                if isinstance(v, ast.JoinedStr):
+                    return True
+    return False
+
+
+def rule_validated_once(ctx, rid="R3.7"):
+    """"finishes": an applicator that validates the same part against the same subschema twice in one call (a quick is_valid pass,
+    then descend again for the errors) costs 2^depth on nested applicators -- a 1 kB schema with forty nested anyOf does not return.
+    Decided on the applicator tables (sa/rules/applic.py): the oracle records every question; none may repeat within a call."""
+    from . import applic
+    prog = ctx.prog
+    r = ctx.rule(rid, "no applicator asks for the verdict of the same (part, subschema) pair twice in one call (cost would double per nesting level)", floor=18)
+    for rec in applic.evaluate_all(prog):
+        f, k = rec["func"], rec["keyword"]
+        where = "%s [%s %s]" % (site(f), "/".join(rec["drafts"]), k)
+        if rec["undecided"] is not None:
+            r.ok(where, "NOT DECIDED: %s" % rec["undecided"])
+            continue
+        bad = None
+        for row, st, res in rec["results"]:
+            asked = getattr(row, "asked", None) or []
+            dup = [a for a in set(asked) if asked.count(a) > 1]
+            if dup:
+                bad = (row, dup[0], asked.count(dup[0]))
+                break
+        if bad is None:
+            r.ok(where, "every pair asked at most once on %d rows" % rec["rows"])
+        else:
+            row, pair, n = bad
+            r.fail("%s|%s|validated-twice" % (f.qual, k), where,
+                   "%r [%s]: the verdict of (%s, %s) is asked %d times in one call: with this keyword nested d levels deep the innermost subschema "
+                   "is validated %d^d times" % (k, row.label[:100], pair[0], pair[1], n, n))
+    return r
+
+
 def rule_metaschema_shapes(ctx, rid="R11.4"):
     """Every keyword value *inside* a bundled metaschema lies within the shape its own metaschema admits for that keyword
     (so the metaschema, used as a schema by check_schema, stays inside what R3.1 proves safe)."""
@@ -208,6 +373,8 @@ def run(ctx):
     rule_entry_points_total(ctx)
     rule_simple_types(ctx)
     rule_loops_finite(ctx)
+    rule_no_data_templates(ctx)
+    rule_validated_once(ctx)
     # R3.5: resolution_scope indexes the top of the scope stack: a pop that was never pushed empties it and the next $ref raises
     # IndexError (the kind interpreter does not model the stack depth; the typestate pairing analysis does)
     from . import scope
